@@ -3,6 +3,7 @@
 # For every kept seeded change: apply it to /repo's working tree, run the quick tier of the check of its property, restore the
 # tree; prints DETECTED / MISSED / DOES-NOT-APPLY per change.  /repo must be clean and must not be used by anything else meanwhile.
 set -u
+export VERIF_OUT=/verif/scratch/mutant_out; mkdir -p $VERIF_OUT   # keep the committed evidence/ for runs on the unchanged tree
 VERIF=$(cd "$(dirname "$0")/.." && pwd)
 PAT=${1:-*}
 [ -z "$(git -C /repo status --porcelain --untracked-files=no)" ] || { echo "/repo has local changes"; exit 2; }
